@@ -55,10 +55,12 @@ Definition spec_response (rs : list record) (d rest : str) : val :=
   | None => VList [VInt 404; VStr []]
   end.
 
-(* the quantifier of C17: URL-path-safe characters (unreserved set, plus the delimiter), non-empty segments, no dot-segments *)
+(* the quantifier of C17: URL-path-safe characters -- RFC 3986 unreserved characters and sub-delimiters ! $ & ' ( ) * + , ; = and @
+   (plus the delimiter), non-empty segments, no dot-segments *)
 Definition unreserved (c : chr) : bool :=
   ((48 <=? c) && (c <=? 57) || (65 <=? c) && (c <=? 90) || (97 <=? c) && (c <=? 122)
-   || (c =? 45) || (c =? 46) || (c =? 95) || (c =? 126))%N.
+   || (c =? 45) || (c =? 46) || (c =? 95) || (c =? 126)
+   || (c =? 33) || (c =? 36) || (38 <=? c) && (c <=? 44) || (c =? 59) || (c =? 61) || (c =? 64))%N.
 Fixpoint segments (s : str) (cur : str) : list str :=
   match s with
   | [] => [rev cur]
